@@ -213,11 +213,14 @@ def run(ck):
                 so = f.origins(rb[1], deep=True)
                 const_start = bool(so) and all(a[0] in ("lit", "cast") for a in so)
                 clamp = has_call_origin(so, r"cmp::min$|Ord::min$") and has_call_origin(so, r"::len$")
-                guarded = any((kk in ("cmp:Le", "cmp:Lt") and v is True or kk in ("cmp:Gt", "cmp:Ge") and v is False) and "len" in nn for (kk, nn, v) in conditions_at(f, bi))
+                # non-strict: an offset equal to the length is legal (it reads or writes nothing / appends)
+                guarded = any((kk == "cmp:Le" and v is True or kk == "cmp:Gt" and v is False) and "len" in nn for (kk, nn, v) in conditions_at(f, bi))
+                strict_only = not guarded and any((kk == "cmp:Lt" and v is True or kk == "cmp:Ge" and v is False) and "len" in nn for (kk, nn, v) in conditions_at(f, bi))
                 nst += 1
                 ck.ob("BOUNDS", p, "range-start-bounded#%d" % k, const_start or clamp or guarded,
                       "the start of the range is %s" % ("constant" if const_start else "clamped to the length of the data" if clamp else "compared with a length before the slice") if const_start or clamp or guarded else
-                      "the start of the range is neither clamped to the length of the sliced data nor compared with it: an offset beyond the end panics", f.loc(bi))
+                      ("the start of the range is only admitted when strictly below the length: an offset equal to the length (empty read, append) is refused" if strict_only else
+                       "the start of the range is neither clamped to the length of the sliced data nor compared with it: an offset beyond the end panics"), f.loc(bi))
     ck.floor("BOUNDS", "range slices of host-side data", nst, 13)
 
     # v0 action tree: both operands of a combinator must refer to existing actions
@@ -376,6 +379,18 @@ def run(ck):
                     if br and pb[0][0] not in f.reach_from([br[2]], avoid={br[0]}):
                         found = True
             ck.ob("CMP", f.path, "len<MAX_NUM_LOGS", found, "when the limit applies, logging happens only if len < MAX_NUM_LOGS", f.loc(pb[0][0]))
+            # path by path: an event is stored when the limit does not apply, or when fewer than MAX_NUM_LOGS are stored
+            paths = rules.path_condition_sets(f, pb[0][0])
+
+            def has(pth, kind, name, val):
+                return any(k == kind and name in nn and v is val for (k, nn, v) in pth)
+            every = bool(paths) and all(has(pth, "bool", "limit_num_logs", False) or has(pth, "cmp:Lt", "MAX_NUM_LOGS", True) for pth in paths)
+            limited = any(has(pth, "bool", "limit_num_logs", True) and has(pth, "cmp:Lt", "MAX_NUM_LOGS", True) for pth in paths)
+            unlimited = any(has(pth, "bool", "limit_num_logs", False) and not any("MAX_NUM_LOGS" in nn for (k, nn, v) in pth) for pth in paths)
+            ck.ob("CMP", f.path, "log-limit-by-path", every and limited and unlimited,
+                  "every way to store an event has the limit switched off or len < MAX_NUM_LOGS; with the limit on the only way is len < MAX_NUM_LOGS; with it off storing does not depend on MAX_NUM_LOGS"
+                  if every and limited and unlimited else
+                  "paths to push_back: %s" % [[(k, v) for (k, nn, v) in pth] for pth in paths], f.loc(pb[0][0]))
     f = getfn(ck, "sc", E, E + "::v0::host::log_event")
     if f:
         for (bi, t) in f.calls(r"v0::types::Logs>::log_event$"):
